@@ -6,6 +6,7 @@ from classy_blocks.grading.grading import Grading
 from classy_blocks.items.edges.edge import Edge
 from classy_blocks.items.edges.factory import factory
 from classy_blocks.items.vertex import Vertex
+from classy_blocks.util.tools import OrderedSet
 
 
 class Wire:
@@ -27,7 +28,7 @@ class Wire:
 
         # multiple wires can be at the same spot; this list holds other
         # coincident wires
-        self.coincidents: Set[Wire] = set()
+        self.coincidents: Set[Wire] = OrderedSet()
 
     @property
     def length(self) -> float:
